@@ -527,12 +527,16 @@ class AccessorTie:
                 return ({"children_of": int(k), "kids": got}, {"kids": ks})
         # (a') nothing else changed its attributes: every element whose attributes differ from before must be one the model touched
         tset = {x[0] for x in a["touched"]}
+        # (only elements that were attached BEFORE the step have a baseline: a detached subtree that a stale handle
+        # moves back into the model may have had its references purged while it was detached - the attributes
+        # remembered for its elements date from before the deletion)
+        attached_before = {r["nid"] for f in rec.before if f in self.fi for r in rec.before[f]}
         for f in rec.after:
             if f in self.fi:
                 for r in rec.after[f]:
                     now = tuple(sorted(r["el"].attrib.items()))
                     was = self.attrs.get(r["nid"])
-                    if was is not None and was != now and r["nid"] not in tset:
+                    if was is not None and was != now and r["nid"] not in tset and r["nid"] in attached_before:
                         return ({"attributes_changed": r["nid"], "was": [x for x in was if x not in now][:4], "now": [x for x in now if x not in was][:4]}, {"touched": sorted(tset)[:8]})
         # (b) instruction list vs the observed tree diff (independent cross-check): net removals / additions per fragment
         rem: dict[int, set] = {}
